@@ -159,7 +159,10 @@ type Call struct {
 	Name string
 	Args []Expr
 }
-type CreateSequence struct{ Schema, Name string }
+type CreateSequence struct {
+	Schema, Name string
+	Cache        int64 // CACHE n (1 when absent)
+}
 type CreateTrigger struct {
 	Name, Timing, Event, Schema, Table string
 	When                               Expr
